@@ -36,6 +36,12 @@ def fixed_histories():
                S(do="stats"), S(do="peers"), S(do="start")] + dl1 + [S(do="announce"), S(do="addtracker", n=3), S(do="stop"), S(do="announce"), S(do="addpeer"), S(do="stats"), S(do="checkstopped")])
     hs.append([S(do="start")] + complete + stop + [S(do="start"), S(wait="seeding"), S(do="stats")] + stop + [S(do="mutate", kind="corrupt", piece=1), S(do="start"), S(wait="running"), S(do="verify"), S(do="checkstopped")])
     hs.append([S(do="start")] + complete + stop + [S(do="mutate", kind="truncate"), S(do="verify"), S(do="checkstopped"), S(do="stats")])
+    # the tracker answers 'stopped' only after TrackerStopTimeout: Stopped must still be reached, every time
+    late = [S(do="gate", kind="stoptimeout"), S(do="start")] + dl1
+    for _ in range(4):
+        late += [S(do="stop"), S(do="checkstopped"), S(do="start"), S(wait="running")]
+    hs.append(late + [S(do="verify"), S(do="checkstopped")])
+    hs.append([S(do="gate", kind="stoptimeout"), S(do="start")] + complete + [S(do="verify"), S(do="checkstopped"), S(do="start"), S(wait="running"), S(do="stop"), S(do="checkstopped")])
     return hs
 
 
@@ -71,7 +77,7 @@ def random_history(rng):
             else:
                 steps += [S(do="stop")]
         else:
-            c = rng.choice(["progress", "complete", "stop", "stop", "verify", "stopstart", "writestop", "misc", "start"])
+            c = rng.choice(["progress", "complete", "stop", "stop", "verify", "stopstart", "writestop", "misc", "start", "latestop"])
             if c == "progress" and not complete:
                 progress += 1
                 steps += [S(wait="downloading"), S(do="seed", n=1), S(do="blocks", n=2), S(wait="have>=%d" % progress, ms=2500)]
@@ -89,6 +95,9 @@ def random_history(rng):
                 steps += [S(do="gate", kind="stopping"), S(do="stop"), S(wait="stopping", ms=1000), S(do=rng.choice(["start", "start", "verify", "stop"])),
                           S(do="sleep", ms=rng.choice([700, 2900])), S(do="release", kind="stopping"), S(do="sleep", ms=100)]
                 steps += [S(do="stop"), S(do="checkstopped")]
+                st = "S"
+            elif c == "latestop":
+                steps += [S(do="gate", kind="stoptimeout"), S(do=rng.choice(["stop", "stop", "verify"])), S(do="checkstopped"), S(do="release", kind="stoptimeout")]
                 st = "S"
             elif c == "writestop" and not complete:
                 steps += [S(wait="downloading"), S(do="seed", n=1), S(do="gate", kind="write"), S(do="free", n=1), S(wait="gated:write", ms=2500),
@@ -186,9 +195,15 @@ def run(ctx):
     hs = []
     for i, steps in enumerate(fixed_histories()):
         hs.append({"id": i + 1, "layout": LAYOUTS[i % len(LAYOUTS)], "unit": 16384, "seed": 1000 + i, "steps": steps})
+    # outgoing-connection variants of two fixed histories (stop with an undialled address waiting)
+    dl1 = [S(wait="downloading"), S(do="seed", n=1), S(do="blocks", n=2), S(wait="have>=1")]
+    for k in range(2):
+        hs.append({"id": len(hs) + 1, "layout": "single", "unit": 16384, "seed": 2000 + k, "out": True,
+                   "steps": [S(do="start")] + dl1 + [S(do="stop"), S(do="checkstopped"), S(do="sleep", ms=300), S(do="stats"), S(do="start")] + dl1 + [S(do="stop"), S(do="checkstopped"), S(do="sleep", ms=300), S(do="stats")]})
     nrand = ctx.pick(70, 900)
     for i in range(nrand):
-        hs.append({"id": len(hs) + 1, "layout": rng.choice(LAYOUTS), "unit": 16384, "seed": rng.randrange(1, 1 << 30), "steps": random_history(rng)})
+        hs.append({"id": len(hs) + 1, "layout": rng.choice(LAYOUTS), "unit": 16384, "seed": rng.randrange(1, 1 << 30), "steps": random_history(rng),
+                   "out": rng.random() < 0.3})
     by_id = {h["id"]: h for h in hs}
     raws, crashed = xc.run_scenarios(ctx, drv, hs, nproc=ctx.pick(8, 12), per_timeout=60, flag="-histories")
     crash_site = {c["id"]: (c["panic"] or "exit %s" % c["rc"]) for c in crashed}
